@@ -59,8 +59,12 @@ class FileFormat():
 
     @classmethod
     def prepare_resource(cls, resource):
-        for field in resource.descriptor['schema']['fields']:
+        schema = resource.descriptor['schema']
+        for field in schema['fields']:
             field.update(cls.PYTHON_DIALECT.get(field['type'], {}))
+        if isinstance(cls.NULL_VALUE, str) and schema.get('missingValues') == []:
+            # nulls have to be written somehow: record the marker that is used
+            schema['missingValues'] = [cls.NULL_VALUE]
 
     def __transform_row(self, row):
         try:
